@@ -181,6 +181,36 @@ let handle_case kind c =
       ignore foreign;
       before := after
     done
+  | "batch" ->
+    (* uploads in flight together: they take effect in some order; every order of a batch of valid
+       uploads of different objects gives all-2xx and the same stored objects (C12_batch_any_order) *)
+    let cfg = parse_cfg c in
+    let shots = next_list c (fun c -> let d = parse_dec c in let st = next c in (d, st)) in
+    let outside_ok = next_bool c in
+    let after = parse_tree c in
+    let reqs = List.filter_map (fun ((decoded, _, _), _) ->
+        match decoded with Some _ -> Some { q_method = post; q_size_ok = true; q_decoded = decoded } | None -> None) shots in
+    (* oracles keyed by the decoded report *)
+    let semver cfgstr = List.exists (fun ((d, sv, _), _) -> match d with Some r -> r.r_config = cfgstr && sv | None -> false) shots in
+    let marshal r = match List.find_opt (fun ((d, _, _), _) -> d = Some r) shots with
+      | Some ((_, _, m), _) -> m | None -> [] in
+    let paths = List.map q_path reqs in
+    let distinct = List.length (List.sort_uniq compare paths) = List.length paths in
+    if not distinct then diff "batch-objects-distinct" ~model:"pairwise different objects" ~impl:"the generator produced a duplicate";
+    let (msts, mfs) = serve semver marshal cfg fs_init reqs in
+    List.iteri (fun i ((decoded, sv, _), st) ->
+        let valid = valid_request (fun _ -> sv) cfg post true decoded in
+        if not valid then diff (Printf.sprintf "batch-req%d-valid" (i + 1)) ~model:"valid" ~impl:"the generator produced an invalid report"
+        else if st <> "2xx" then
+          prop (if st = "5xx" then "concurrent-upload-5xx" else "concurrent-upload-refused")
+            (Printf.sprintf "request %d of %d valid uploads posted at the same moment (object %S) was answered %s"
+               (i + 1) (List.length shots)
+               (match decoded with Some r -> string_of_bytes (object_name r) | None -> "?") st)) shots;
+    if List.exists (fun st -> st <> S2xx) msts then diff "batch-model-status" ~model:"not all 2xx" ~impl:"-";
+    if not outside_ok then prop "outside-bucket" "a batch of uploads changed something outside the upload bucket";
+    if mfs <> after then
+      prop "stored-object" (Printf.sprintf "after %d concurrent valid uploads the bucket should hold {%s} but holds {%s}"
+                              (List.length shots) (clip (show_fs mfs)) (clip (show_fs after)))
   | "render" ->
     let l = next_list c next_bytes in
     List.iter (fun xs -> if not (g_string xs) then prop "g-alphabet" (Printf.sprintf "%%g rendering %S" (string_of_bytes xs))) l
